@@ -263,3 +263,160 @@ pub fn iter_mut_next<'a, T>(it: &mut SliceIterMut<'a, T>) -> Option<&'a mut T> {
         }
     }
 }
+
+/// stands in for `core::array::IntoIter<T, N>` (by-value array iteration, `for x in [a, b, c]`).  The `Copy` bound only
+/// serves the type checker here: the interpreter executes the MIR for any `T` (a move and a copy are the same to it).
+pub struct ArrIter<T: Copy, const N: usize> {
+    a: [T; N],
+    i: usize,
+    j: usize,
+}
+
+/// element `i` through the slice view (the bounds check then reads the length from the value, not from `N`)
+fn at<T: Copy, const N: usize>(a: &[T; N], i: usize) -> T {
+    let s: &[T] = a;
+    s[i]
+}
+
+/// `<[T; N] as IntoIterator>::into_iter`
+pub fn array_into_iter<T: Copy, const N: usize>(a: [T; N]) -> ArrIter<T, N> {
+    let n = {
+        let s: &[T] = &a;
+        s.len()
+    };
+    ArrIter { a, i: 0, j: n }
+}
+
+/// `<core::array::IntoIter<T, N> as Iterator>::next`
+pub fn arr_iter_next<T: Copy, const N: usize>(it: &mut ArrIter<T, N>) -> Option<T> {
+    if it.i < it.j {
+        let v = at(&it.a, it.i);
+        it.i += 1;
+        Some(v)
+    } else {
+        None
+    }
+}
+
+/// `<core::array::IntoIter<T, N> as DoubleEndedIterator>::next_back`
+pub fn arr_iter_next_back<T: Copy, const N: usize>(it: &mut ArrIter<T, N>) -> Option<T> {
+    if it.i < it.j {
+        it.j -= 1;
+        Some(at(&it.a, it.j))
+    } else {
+        None
+    }
+}
+
+/// `<core::array::IntoIter<T, N> as Iterator>::size_hint`
+pub fn arr_iter_size_hint<T: Copy, const N: usize>(it: &ArrIter<T, N>) -> (usize, Option<usize>) {
+    let n = it.j - it.i;
+    (n, Some(n))
+}
+
+/// `<core::array::IntoIter<T, N> as ExactSizeIterator>::len`
+pub fn arr_iter_len<T: Copy, const N: usize>(it: &ArrIter<T, N>) -> usize {
+    it.j - it.i
+}
+
+/// `<core::array::IntoIter<T, N> as Iterator>::count`
+pub fn arr_iter_count<T: Copy, const N: usize>(it: ArrIter<T, N>) -> usize {
+    it.j - it.i
+}
+
+/// `<core::array::IntoIter<T, N> as Iterator>::last`
+pub fn arr_iter_last<T: Copy, const N: usize>(it: ArrIter<T, N>) -> Option<T> {
+    if it.i < it.j {
+        Some(at(&it.a, it.j - 1))
+    } else {
+        None
+    }
+}
+
+/// `<core::array::IntoIter<T, N> as Iterator>::fold`
+pub fn arr_iter_fold<T: Copy, const N: usize, B, F: FnMut(B, T) -> B>(mut it: ArrIter<T, N>, init: B, mut f: F) -> B {
+    let mut acc = init;
+    while it.i < it.j {
+        let v = at(&it.a, it.i);
+        it.i += 1;
+        acc = f(acc, v);
+    }
+    acc
+}
+
+/// stands in for `core::char::CaseMappingIter` (what `char::to_uppercase()` / `to_lowercase()` wrap)
+pub struct CaseIter(ArrIter<char, 3>);
+
+/// `core::char::CaseMappingIter::new`: the up-to-three characters of a case mapping, trailing NULs dropped
+pub fn case_mapping_iter_new(chars: [char; 3]) -> CaseIter {
+    let mut it = array_into_iter(chars);
+    if at(&chars, 2) == '\0' {
+        arr_iter_next_back(&mut it);
+        if at(&chars, 1) == '\0' {
+            arr_iter_next_back(&mut it);
+        }
+    }
+    CaseIter(it)
+}
+
+/// `<core::array::IntoIter<T, N> as DoubleEndedIterator>::rfold`
+pub fn arr_iter_rfold<T: Copy, const N: usize, B, F: FnMut(B, T) -> B>(mut it: ArrIter<T, N>, init: B, mut f: F) -> B {
+    let mut acc = init;
+    while it.i < it.j {
+        it.j -= 1;
+        let v = at(&it.a, it.j);
+        acc = f(acc, v);
+    }
+    acc
+}
+
+/// `<core::array::IntoIter<T, N> as Iterator>::nth`
+pub fn arr_iter_nth<T: Copy, const N: usize>(it: &mut ArrIter<T, N>, n: usize) -> Option<T> {
+    if n >= it.j - it.i {
+        it.i = it.j;
+        None
+    } else {
+        it.i += n;
+        let v = at(&it.a, it.i);
+        it.i += 1;
+        Some(v)
+    }
+}
+
+/// stands in for `core::char::ToUppercase` / `ToLowercase` (a wrapper around the case-mapping iterator)
+pub struct CaseWrap(CaseIter);
+
+/// `<core::char::ToUppercase as Iterator>::next` (and `ToLowercase`)
+pub fn case_next(it: &mut CaseWrap) -> Option<char> {
+    arr_iter_next(&mut it.0 .0)
+}
+
+/// `<core::char::ToUppercase as DoubleEndedIterator>::next_back`
+pub fn case_next_back(it: &mut CaseWrap) -> Option<char> {
+    arr_iter_next_back(&mut it.0 .0)
+}
+
+/// `<core::char::ToUppercase as Iterator>::size_hint`
+pub fn case_size_hint(it: &CaseWrap) -> (usize, Option<usize>) {
+    arr_iter_size_hint(&it.0 .0)
+}
+
+/// `<core::char::ToUppercase as ExactSizeIterator>::len`
+pub fn case_len(it: &CaseWrap) -> usize {
+    arr_iter_len(&it.0 .0)
+}
+
+/// `<core::char::ToUppercase as Iterator>::count`
+pub fn case_count(it: CaseWrap) -> usize {
+    arr_iter_count(it.0 .0)
+}
+
+/// `<core::char::ToUppercase as Iterator>::last`
+pub fn case_last(it: CaseWrap) -> Option<char> {
+    arr_iter_last(it.0 .0)
+}
+
+/// `<core::char::ToUppercase as Iterator>::fold`
+pub fn case_fold<B, F: FnMut(B, char) -> B>(it: CaseWrap, init: B, f: F) -> B {
+    arr_iter_fold(it.0 .0, init, f)
+}
